@@ -26,6 +26,8 @@ fn run_check(id: &str, tier: Tier) -> Option<Report> {
         "C07" => checks::c07::run(tier),
         "C08" => checks::c08::run(tier),
         "C09" => checks::c09::run(tier),
+        "C10" => checks::c10::run(tier),
+        "C11" => checks::c11::run(tier),
         "C17" => checks::c17::run(tier),
         _ => return None,
     })
@@ -40,6 +42,8 @@ fn replay_case(id: &str, case: &Value) -> Option<Vec<Failure>> {
         "C07" => checks::c07::replay(case),
         "C08" => checks::c08::replay(case),
         "C09" => checks::c09::replay(case),
+        "C10" => checks::c10::replay(case),
+        "C11" => checks::c11::replay(case),
         "C17" => checks::c17::replay(case),
         _ => return None,
     })
